@@ -192,6 +192,24 @@ def run(ck):
     fl = ck.flow(uns, switch_assume=on_state(states["leLoading"]))
     ck.require_fact("L3.same-key", fl, ev_call(RB + "addSlotToEntry"), result_of(ck, uns, RB + "sameEntry"), True, "addSlotToEntry()",
                     why="(a slot of another key would join the chain)")
+    ck.rule("L3b sameEntry (which slots are merged into one loading entry): returns true only with the slot's key equal to the entry's key AND the slot's "
+            "DbCellHeader::version equal to the version recorded for the loading entry; keys alone also match the stale slots of a previous version of the same URL, "
+            "so after a crash during an overwrite the rebuilt entry is a new head followed by an old tail")
+    se = facts.fn(RB + "sameEntry")
+    sfl = ck.flow(se)
+    vers = lambda t: any(n.get("k") == "mem" and n.get("m", "").endswith("::version") for n in E.walk(t))
+    for st in ck.sites(sfl, lambda ev: ev.get("e") == "ret", "return", 1):
+        x = st.ev.get("x")
+        if E.const(x) == 0:
+            continue
+        mentions_version = vers(x) or any(f[0] in ("A", "H") and f[2] is True and vers(sfl.trees[f[1]]) for f in st.facts)
+        if mentions_version:
+            ck.ok("L3b.same-version", st.where(), "sameEntry compares the version as well as the key")
+        else:
+            ck.violation("L3b.same-version", "L3b|sameEntry|version-not-compared", st.where(),
+                         "Rock::Rebuild::sameEntry accepts a slot for a loading entry on key equality alone (%s): slots of an older version of the same key are chained into "
+                         "the entry; after a crash while a cached object was being replaced, the rebuilt entry serves the new head with the old tail" % E.key(x)[:80])
+
     ck.require_unreachable("L3.no-restart-while-loading", fl, ev_call(RB + "startNewEntry"), "startNewEntry", "state==leLoading")
     fl = ck.flow(uns, switch_assume=on_state(states["leEmpty"]))
     ck.sites(fl, ev_call(RB + "startNewEntry"), "startNewEntry under leEmpty", 1)
